@@ -2,14 +2,24 @@
 import json
 import os
 import vlib
+from checks import _translator
 
 THEOREMS = {"Properties.C19": ["C19_tenant_bound", "C19_tenant_none", "C19_global_bound",
                                "C19_refund_neutral", "C19_no_starvation", "C19_fresh_tenant",
-                               "C19_nonvacuous"]}
+                               "C19_nonvacuous"],
+            # tie by translation: TokenBucket regenerated from rate_limiter.rs on every run == Model/RateLimit.v
+            "Properties.C19gen": ["C19_generated_bucket_matches_model", "C19_generated_refill_matches_model",
+                                  "C19_generated_refund_matches_model", "C19_generated_new_matches_model",
+                                  "C19_generated_available_matches_model", "C19gen_nonvacuous"]}
 PINS = {"Properties.C19": {
     "_preamble": "From Coq Require Import QArith List NArith ZArith. From Kyro Require Import Model.RateLimit Proofs.RateLimitProofs. Open Scope Q_scope.",
     "C19_tenant_bound": "forall (g : option N) (evs : list ev) (s : cstate) (t : N) (b : bucket), crun (cinit g) evs = Some s -> t_get (l_tenants (c_lim s)) t = Some b -> (qn (admitted_t (c_calls s) t) <= b_cap b + b_rate b * elapsed evs)%Q",
     "C19_global_bound": "forall (q : N) (evs : list ev) (s : cstate) (g : bucket), crun (cinit (Some q)) evs = Some s -> l_global (c_lim s) = Some g -> (qn (admitted_all (c_calls s)) <= b_cap g + b_rate g * elapsed evs)%Q",
+},
+    "Properties.C19gen": {
+    "_preamble": "From Coq Require Import QArith NArith ZArith. From Kyro Require Import Model.RateLimit gen.Bucket_gen Proofs.BucketGenProofs. Open Scope Q_scope.",
+    "C19_generated_bucket_matches_model": "forall (g : token_bucket) (now : Q), (to_model (fst (Bucket_gen.try_consume g now)), snd (Bucket_gen.try_consume g now)) = RateLimit.try_consume (to_model g) now",
+    "C19_generated_refill_matches_model": "forall (g : token_bucket) (now : Q), to_model (Bucket_gen.refill g now) = RateLimit.refill (to_model g) now",
 }}
 
 
@@ -20,9 +30,20 @@ def run(ctx):
         "time steps are multiples of 1/512 s and rates are integers, so every f64 intermediate in TokenBucket is exact and the Q model must agree bit for bit; f64 rounding off this grid is not covered by the theorems",
         "atomicity of each TokenBucket operation under its parking_lot::Mutex (the interleaving semantics of Model/RateLimit.v takes these as atomic steps)",
     ]
-    proofs_ok = ctx.proof_phase(["Properties/C19.vo"], THEOREMS, pins=PINS)
+    ctx.trusted.append("harness/p/translator target token_bucket (syn parser + typed Rust-subset -> Gallina translator, fails closed): f64 read as exact Q, Instant as Q seconds with the clock as the parameter `now`, now.duration_since(last).as_secs_f64() as now - last (Rust saturates a negative difference to 0 and rounds to f64; its only use is under `elapsed > 0.0`); the #[cfg(kyrodb_verif)] lines must translate identically with the hook on and off")
+    # regenerate coq/gen/Bucket_gen.v from /repo (fails closed); Properties/C19gen.v proves it equal to the model
+    gen = _translator.regen(ctx, "token_bucket", "Bucket_gen", also_build=["c19"])
+    proofs_ok = ctx.proof_phase(["Properties/C19.vo", "Properties/C19gen.vo"], THEOREMS, pins=PINS)
+    gen_broken = []
+    if gen["broken"]:
+        gen_broken.append(gen["broken"])
+    elif _translator.stale_vo("Bucket_gen"):
+        gen_broken.append({"kind": "generated-model-did-not-compile", "file": "coq/gen/Bucket_gen.v"})
 
-    ok, log = vlib.cargo_build(["c19"])
+    if gen["drivers_built"]:
+        ok, log = True, "built together with the translator"
+    else:
+        ok, log = vlib.cargo_build(["c19"])
     ctx.log("cargo.log", log)
     if not ok:
         ctx.say("harness build failed")
@@ -69,6 +90,8 @@ def run(ctx):
         "model_disagreements": len(bad),
         "oracle_failures": len(summ["oracle_failures"]),
         "concurrent_rounds_frozen_clock": summ.get("concurrent_rounds", 0),
+        "regenerated_from_source": {"file": "coq/gen/Bucket_gen.v", "translated_ok": gen["ok"],
+                                    "functions": (gen["report"] or {}).get("functions")},
     })
     # --- decide
     for f in summ["oracle_failures"]:
@@ -76,7 +99,7 @@ def run(ctx):
                        "replay_cmd": "./check C19 --replay <this file>"})
     if summ["oracle_failures"]:
         return
-    broken = []
+    broken = list(gen_broken)
     if not proofs_ok:
         broken.append({"kind": "proof-obligations", "failed": ctx.failed_obligations})
     if coq_err:
